@@ -37,6 +37,13 @@ type Obs struct {
 	Deep              bool
 	Obj               *ObjObs
 	Ffmt              map[uint64]string
+	// the same three steps in a fresh context in which NO struct type was registered: WrapReflectedType derives
+	// anonymous object types from the unnamed struct types (types.go wrapReflectedType, case reflect.Struct)
+	Anon                                  bool
+	AnonTypeErr, AnonTypeText, AnonWrapErr string
+	AnonInst                              bool
+	AnonBackErr, AnonBackText             string
+	AnonDeep                              bool
 }
 
 // ObjObs: the struct <-> object clause, observed for cases whose shape is a struct or a pointer to one.
@@ -78,8 +85,47 @@ func deepEqual(s *Shape, orig reflect.Value, origV *Val, back reflect.Value, kno
 	return valEqual(s, origV, bv), bv, false
 }
 
+// runAnon: derive the type of the Go type without registering its struct types first, wrap, test, convert back.
+func runAnon(cs *Case, o *Obs) {
+	var structs []*Shape
+	structShapes(cs.S, map[string]bool{}, &structs)
+	if len(structs) == 0 {
+		return
+	}
+	o.Anon = true
+	pcore.Do(func(c px.Context) {
+		rt := cs.S.RType()
+		gv := Build(cs.S, cs.V)
+		var pt px.Type
+		o.AnonTypeErr, o.AnonTypeText = guarded(func() {
+			var err error
+			pt, err = px.WrapReflectedType(c, rt)
+			if err != nil {
+				panic(err)
+			}
+		})
+		if o.AnonTypeErr != "" {
+			return
+		}
+		var w px.Value
+		o.AnonWrapErr, _ = guarded(func() { w = px.Wrap(c, gv.Interface()) })
+		if o.AnonWrapErr != "" {
+			return
+		}
+		_, _ = guarded(func() { o.AnonInst = px.IsInstance(pt, w) })
+		o.AnonBackErr, o.AnonBackText = guarded(func() {
+			back := c.Reflector().Reflect2(w, rt)
+			o.AnonDeep = reflect.DeepEqual(gv.Interface(), back.Interface()) || func() bool {
+				bv, ok := Unbuild(cs.S, back, map[reflect.Type]*Shape{})
+				return ok && valEqual(cs.S, cs.V, bv)
+			}()
+		})
+	})
+}
+
 func runCase(cs *Case) *Obs {
 	o := &Obs{}
+	runAnon(cs, o)
 	pcore.Do(func(c px.Context) {
 		env := &caseEnv{known: map[reflect.Type]*Shape{}, ffmt: map[uint64]string{}}
 		o.Ffmt = env.ffmt
@@ -337,6 +383,22 @@ func directCheck(cs *Case, o *Obs, res *lib.Result) (violated bool) {
 		viol("ptype-accepts", "WrapReflectedType fails: "+o.TypeErr+" "+o.TypeText, accTags)
 	case !o.Inst:
 		viol("ptype-accepts", "the derived type "+o.TypeText+" does not accept the wrapped value "+o.Wrapped, accTags)
+	}
+	// the same two clauses when the struct types were not registered beforehand (anonymous object types)
+	if o.Anon {
+		switch {
+		case o.AnonTypeErr != "":
+			viol("ptype-accepts", "WrapReflectedType of the type with unregistered (anonymous) struct types fails: "+o.AnonTypeErr+" "+o.AnonTypeText, accTags)
+		case o.AnonWrapErr != "":
+			viol("roundtrip", "Wrap fails when the struct types are anonymous: "+o.AnonWrapErr, rtTags)
+		default:
+			if !o.AnonInst {
+				viol("ptype-accepts", "anonymous struct types: the derived type "+o.AnonTypeText+" does not accept the wrapped value", accTags)
+			}
+			if (o.AnonBackErr != "" || !o.AnonDeep) && !outside {
+				viol("roundtrip", "anonymous struct types: the value converted back is not deeply equal "+o.AnonBackErr+" "+o.AnonBackText, rtTags)
+			}
+		}
 	}
 	// clause 3: an object type derived from a struct constructs instances that convert back to equal structs
 	if ob := o.Obj; ob != nil {
